@@ -435,18 +435,21 @@ where
     BlockHashSize<S2>: ConstrainedBlockHashSize,
     BlockHashSizes<64, S2>: ConstrainedBlockHashSizes,
 {
-    let mut ok = h.log_blocksize as usize == d.log && h.len_blockhash1 as usize == d.l1 && h.len_blockhash2 as usize == d.l2;
+    // separate assertions so that a counterexample names the differing part
+    assert!(h.log_blocksize as usize == d.log);
+    assert!(h.len_blockhash1 as usize == d.l1);
+    assert!(h.len_blockhash2 as usize == d.l2);
     let mut i = 0;
     while i < 64 {
-        if h.blockhash1[i] != (if i < d.l1 { d.bh1[i] } else { 0 }) {
-            ok = false;
-        }
-        if i < S2 && h.blockhash2[i] != (if i < d.l2 { d.bh2[i] } else { 0 }) {
-            ok = false;
+        let e1 = if i < d.l1 { d.bh1[i] } else { 0 };
+        assert!(h.blockhash1[i] == e1);
+        if i < S2 {
+            let e2 = if i < d.l2 { d.bh2[i] } else { 0 };
+            assert!(h.blockhash2[i] == e2);
         }
         i += 1;
     }
-    ok
+    true
 }
 
 fn pure_digest(g: &GeneratorInnerData, st: usize, en: usize, truncate: bool) -> SpecDigest {
